@@ -18,7 +18,7 @@ import (
 
 func c06Program(r *fw.Rand) (string, string) {
 	d := func() string { return gen.DiceProgram(r) }
-	switch r.Intn(14) {
+	switch r.Intn(20) {
 	case 0, 1, 2:
 		return d(), "dice"
 	case 3:
@@ -41,9 +41,41 @@ func c06Program(r *fw.Rand) (string, string) {
 		return "x = " + d() + "; if x > 5 { " + d() + " } else { " + d() + " }", "dice-in-branches"
 	case 12:
 		return "[" + d() + ", " + d() + ", {'k': " + d() + "}]", "dice-in-containers"
-	default:
+	case 13:
 		return "func f(n) { if n < 1 { return 0 }; d6 + f(n-1) }; f(4) + 2c8 + 3a9", "recursion"
+	case 14:
+		return "func draw(n) { return [1..30].randSize(n) }; [draw(10), d1000000, draw(3)]", "array-random-in-function"
+	case 15:
+		return "&deck = [1..30].shuffle(); &pick = [1..1000].rand(); [deck, pick, d1000000]", "array-random-in-computed"
+	case 16:
+		return "`{[1..40].shuffle()}|{% xs = [1..50]; xs.rand() %}|{d1000}`", "array-random-in-template"
+	case 17, 18:
+		// host-global computed values shared by every VM of the process
+		return r.Pick([]string{"全局伤害 + d20", "[全局伤害, 全局牌, d1000]", "func g() { 全局伤害 }; g() + 全局伤害", "&c = 全局伤害 * 2; c + 全局检定"}), "host-global-computed"
+	default:
+		return "xs = [5,4,3,2,1,9,8,7,6]; func sh() { xs.shuffle(); xs }; [sh(), xs.rand()]", "array-random-in-function"
 	}
+}
+
+// host globals: computed values served through GlobalValueLoadFunc. The same value objects are
+// handed to every context of the process (as a host with global variables does).
+var c06Globals = map[string]*ds.VMValue{
+	"全局伤害": ds.NewComputedVal("3d1000000"),
+	"全局牌":  ds.NewComputedVal("[1..20].shuffle()"),
+	"全局检定": ds.NewComputedVal("d100 + 2d6kh1"),
+}
+
+var c06Warm sync.Once
+
+func c06InstallGlobals(vm *ds.Context) {
+	// the first reader of the shared values is an unseeded context (single-threaded warm-up, so
+	// that the lazily compiled code of the shared objects is written exactly once)
+	c06Warm.Do(func() {
+		w := AllDice().NewVM()
+		w.GlobalValueLoadFunc = func(name string) *ds.VMValue { return c06Globals[name] }
+		_ = w.Run("全局伤害 + 全局检定; 全局牌")
+	})
+	vm.GlobalValueLoadFunc = func(name string) *ds.VMValue { return c06Globals[name] }
 }
 
 type c06Obs struct {
@@ -53,6 +85,7 @@ type c06Obs struct {
 
 func c06Run(cfg Cfg, src string, tapOn bool) (o c06Obs) {
 	vm := cfg.NewVM()
+	c06InstallGlobals(vm)
 	var tap *hook.Monitor
 	if tapOn {
 		tap = &hook.Monitor{}
@@ -91,9 +124,10 @@ func perturb(stop *int32, wg *sync.WaitGroup, seed uint64) {
 			for atomic.LoadInt32(stop) == 0 {
 				i++
 				switch g {
-				case 0: // unseeded VM rolling every family
+				case 0: // unseeded VM rolling every family and reading the host globals
 					vm := AllDice().NewVM()
-					_ = vm.Run("3d6 + b2 + f + 2a8 + 2c8; xs=[1,2,3]; xs.shuffle(); xs.rand()")
+					c06InstallGlobals(vm)
+					_ = vm.Run("3d6 + b2 + f + 2a8 + 2c8; xs=[1,2,3]; xs.shuffle(); xs.rand(); 全局伤害 + 全局检定; 全局牌")
 				case 1: // seeded VM with another seed
 					c := AllDice()
 					c.Seed = seed + i
@@ -178,6 +212,7 @@ func c06Case(w *fw.W, idx int, r *fw.Rand) {
 			p2 = "ys = [1,2,3,4,5,6,7]; ys.shuffle(); [ys, " + p2 + "]"
 		}
 		vmA := cfg.NewVM()
+		c06InstallGlobals(vmA)
 		fw.Guard(func() { _ = vmA.Run(p1) })
 		cap1, _ := vmA.GetCurSeed()
 		var ra, rb c06Obs
@@ -201,6 +236,7 @@ func c06Case(w *fw.W, idx int, r *fw.Rand) {
 		vmB := &ds.Context{Seed: cap1}
 		vmB.Init()
 		cfg.Apply(vmB)
+		c06InstallGlobals(vmB)
 		// variables of P1 that P2 does not use are irrelevant; P2 is self-contained
 		rb = run2(vmB)
 		w.Eval(2)
@@ -248,6 +284,7 @@ func init() {
 		ID:      "C06",
 		AsLimit: true,
 		NCases:  c06N,
+		Setup:   func(w *fw.W) { c06InstallGlobals(ds.NewVM()) }, // warm the shared host globals before any snapshot
 		Run: func(w *fw.W, idx int, r *fw.Rand) {
 			if idx%25 == 24 {
 				c06Printing(w, idx, r)
